@@ -71,8 +71,23 @@ def _set_path(root, path, v):
     o[path[-1]] = v
 
 
+def _odictify(v):
+    """complex notations given as OrderedDict with the keys in the other order (a dict subclass is a dict)"""
+    import collections
+    if isinstance(v, dict):
+        out = {k: _odictify(x) for k, x in v.items()}
+        if sorted(out.keys()) in (["imag", "real"], ["abs", "phase"], ["abs", "phase_deg"]):
+            return collections.OrderedDict(reversed(list(out.items())))
+        return out
+    if isinstance(v, list):
+        return [_odictify(x) for x in v]
+    return v
+
+
 def build_value(r):
     v = dec(r["v"])
+    if r.get("odict"):
+        v = _odictify(v)
     for src, dst in r.get("alias", []):
         _set_path(v, dst, _get_path(v, src))
     return v
